@@ -19,6 +19,12 @@ def Register.replay (reg : Addr) : List (Addr × Addr) → Option Addr
   | [] => some reg
   | (last, cur) :: rest => if reg = last then Register.replay cur rest else none
 
+/-- the same register with an *idempotent* compare-and-swap: `cas(last, cur)` also reports success when the
+register already holds `cur` (and then changes nothing) -/
+def Register.replayI (reg : Addr) : List (Addr × Addr) → Option Addr
+  | [] => some reg
+  | (last, cur) :: rest => if reg = last ∨ reg = cur then Register.replayI cur rest else none
+
 /-- the acknowledgements of a schedule, in the order of their `manifest.Update` steps -/
 def acks (env : Env) : Sys → List Op → List (Addr × Addr)
   | _, [] => []
@@ -42,6 +48,17 @@ example : (Disk.update { manifest := some { root := 1, lock := mkLock 1 [[1]], s
 theorem update_stale_reports_disk (d : Disk) (l : Lock) (n up : Contents) (h : (d.update l n).2 = .stale up) :
     d.manifest = some up ∧ (d.update l n).1 = d := update_stale d l n up h
 
+/-- only `cresume` answering `true` ever acknowledges -/
+theorem ack_only_by_update (s : Sys) (op : Op) (r : Resp) (l c : Addr) (h : ackOf s op r = some (l, c)) :
+    ∃ i p, op = .cresume i ∧ r = .commit (.ok true) ∧ (s.hs i).pc = some p ∧ p.last = l ∧ p.cur = c := by
+  unfold ackOf at h
+  split at h
+  · rename_i i
+    cases hp : (s.hs i).pc with
+    | none => simp [hp] at h
+    | some p => simp [hp] at h; exact ⟨i, p, rfl, rfl, hp, h.1, h.2⟩
+  · simp at h
+
 /-! ### every step: the persisted root moves only as an acknowledged CAS -/
 
 /-- The invariant (every lock in the system is the lock hash of its own root) holds initially and is
@@ -51,23 +68,55 @@ theorem inv_run (env : Env) (s : Sys) (hi : Inv s) (ops : List Op) : Inv (s.run 
   | nil => exact hi
   | cons op ops ih => exact ih _ (next_facts env s hi op).inv
 
-/-- `commit_step_is_cas`: a step that acknowledges a commit `(last, cur)` found the persisted root equal to
-`last` and leaves it equal to `cur`; every other step (of any handle) leaves the persisted root alone. -/
-theorem commit_step_is_cas (env : Env) (s : Sys) (hi : Inv s) (op : Op) :
+/-- `commit_step_is_cas_or_idempotent`: a step that acknowledges a commit `(last, cur)` leaves the persisted
+root equal to `cur`, and found it equal to `last` — or found it *already equal to `cur`* and wrote nothing
+(the manifest on disk already carried exactly the new lock: same root, same table set); every other step
+(of any handle) leaves the persisted root alone. -/
+theorem commit_step_is_cas_or_idempotent (env : Env) (s : Sys) (hi : Inv s) (op : Op) :
     match ackOf s op (s.next env op).2 with
-    | some (last, cur) => s.disk.root = last ∧ (s.next env op).1.disk.root = cur
+    | some (last, cur) => (s.next env op).1.disk.root = cur ∧
+        (s.disk.root = last ∨ (s.disk.root = cur ∧ (s.next env op).1.disk.manifest = s.disk.manifest))
     | none => (s.next env op).1.disk.root = s.disk.root := by
   have f := next_facts env s hi op
   cases h : ackOf s op (s.next env op).2 with
   | none => exact f.noack h
   | some p => obtain ⟨l, c⟩ := p; exact f.ack l c h
 
-/-- `commit_refines_cas` (linearizability to a single CAS register): for every schedule of the atomic
-steps of any number of handles, replaying the acknowledged commits — in the order of their
-`manifest.Update` steps — on one sequential compare-and-swap register succeeds at every one of them and
-ends in exactly the root a fresh open of the directory reports. -/
+/-- The property as stated ("succeeds only if the persisted root still equals the caller's expected
+previous root"), for every acknowledging step. -/
+def commit_step_is_cas_full : Prop :=
+  ∀ (env : Env) (s : Sys), Inv s → ∀ (op : Op) (l c : Addr), ackOf s op (s.next env op).2 = some (l, c) → s.disk.root = l
+
+/-- `commit_step_is_cas_partial`: the strict statement holds whenever the lock on disk differs from the lock
+of the manifest the commit is about to write (i.e. nobody has already installed exactly that root with
+exactly that table set). -/
+theorem commit_step_is_cas_partial (env : Env) (s : Sys) (hi : Inv s) (i : Nat) (p : Pending) (l c : Addr)
+    (hp : (s.hs i).pc = some p) (hne : s.disk.lock ≠ p.new.lock)
+    (h : ackOf s (.cresume i) (s.next env (.cresume i)).2 = some (l, c)) :
+    s.disk.root = l ∧ (s.next env (.cresume i)).1.disk.root = c :=
+  ⟨(next_facts env s hi (.cresume i)).strict l c i p h rfl hp hne, ((next_facts env s hi (.cresume i)).ack l c h).1⟩
+
+/-- The full statement is false of the code: `updateManifest` recognises success by
+`newContents.lock == upstream.lock`, so a commit whose `last` is stale is acknowledged when another handle
+has already installed the same root over the same table set.  Witness: two handles open the empty store,
+both put chunk 1, handle 0 commits (0 → 1); handle 1 — still believing the root is 0 — commits (0 → 1) and
+is told `true` while the persisted root is 1.  (Replayed on the implementation by the `nbscommit` harness:
+known finding `C02/commit-true-root-already-cur`.) -/
+theorem commit_step_is_cas_full_refuted : ¬ commit_step_is_cas_full := by
+  intro h
+  have := h { refs := fun _ => [], size := fun _ => 10 }
+    (Sys.init.run { refs := fun _ => [], size := fun _ => 10 }
+      [.openH 0 100, .openH 1 100, .put 0 1, .put 1 1, .cstart 0 1 0, .cresume 0, .cstart 1 1 0])
+    (inv_run _ _ inv_init _) (.cresume 1) 0 1 (by decide)
+  revert this
+  decide
+
+/-- `commit_refines_cas` (linearizability to a single register): for every schedule of the atomic steps of
+any number of handles, replaying the acknowledged commits — in the order of their `manifest.Update` steps —
+on one sequential register with idempotent compare-and-swap succeeds at every one of them and ends in
+exactly the root a fresh open of the directory reports. -/
 theorem commit_refines_cas (env : Env) (s : Sys) (hi : Inv s) (ops : List Op) :
-    Register.replay s.disk.root (acks env s ops) = some (s.run env ops).disk.root := by
+    Register.replayI s.disk.root (acks env s ops) = some (s.run env ops).disk.root := by
   induction ops generalizing s with
   | nil => rfl
   | cons op ops ih =>
@@ -80,13 +129,55 @@ theorem commit_refines_cas (env : Env) (s : Sys) (hi : Inv s) (ops : List Op) :
       rw [← f.noack h]; exact ih'
     | some p =>
       obtain ⟨l, c⟩ := p
-      obtain ⟨h1, h2⟩ := f.ack l c h
-      simp only [Option.toList, List.cons_append, List.nil_append, Register.replay, h1, if_true]
+      obtain ⟨h2, h1⟩ := f.ack l c h
+      have hc : s.disk.root = l ∨ s.disk.root = c := by
+        rcases h1 with e | ⟨e, _⟩
+        · exact Or.inl e
+        · exact Or.inr e
+      simp only [Option.toList, List.cons_append, List.nil_append, Register.replayI, hc, if_true]
       rw [← h2]; exact ih'
+
+/-- no lock coincidence along the schedule: whenever a parked commit runs its `Update`, the lock on disk is
+not already the lock it is about to write -/
+def NoCoincidence (env : Env) : Sys → List Op → Prop
+  | _, [] => True
+  | s, op :: ops =>
+    (∀ i p, op = .cresume i → (s.hs i).pc = some p → s.disk.lock ≠ p.new.lock) ∧ NoCoincidence env (s.next env op).1 ops
+
+/-- `commit_refines_cas_partial`: under `NoCoincidence` the register is a strict compare-and-swap register -/
+theorem commit_refines_cas_partial (env : Env) (s : Sys) (hi : Inv s) (ops : List Op) (hnc : NoCoincidence env s ops) :
+    Register.replay s.disk.root (acks env s ops) = some (s.run env ops).disk.root := by
+  induction ops generalizing s with
+  | nil => rfl
+  | cons op ops ih =>
+    have f := next_facts env s hi op
+    have ih' := ih _ f.inv hnc.2
+    simp only [acks, Sys.run]
+    cases h : ackOf s op (s.next env op).2 with
+    | none =>
+      simp only [Option.toList, List.nil_append]
+      rw [← f.noack h]; exact ih'
+    | some p =>
+      obtain ⟨l, c⟩ := p
+      obtain ⟨i, q, hop, _, hq, _, _⟩ := ack_only_by_update s op _ l c h
+      have h1 := f.strict l c i q h hop hq (hnc.1 i q hop hq)
+      simp only [Option.toList, List.cons_append, List.nil_append, Register.replay, h1, if_true]
+      rw [← (f.ack l c h).1]; exact ih'
+
+/-- the strict statement for all schedules -/
+def commit_refines_cas_full : Prop :=
+  ∀ (env : Env) (ops : List Op), Register.replay 0 (acks env Sys.init ops) = some (Sys.init.run env ops).disk.root
+
+theorem commit_refines_cas_full_refuted : ¬ commit_refines_cas_full := by
+  intro h
+  have := h { refs := fun _ => [], size := fun _ => 10 }
+    [.openH 0 100, .openH 1 100, .put 0 1, .put 1 1, .cstart 0 1 0, .cresume 0, .cstart 1 1 0, .cresume 1]
+  revert this
+  decide
 
 /-- from the empty directory -/
 theorem commit_refines_cas_init (env : Env) (ops : List Op) :
-    Register.replay 0 (acks env Sys.init ops) = some (Sys.init.run env ops).disk.root :=
+    Register.replayI 0 (acks env Sys.init ops) = some (Sys.init.run env ops).disk.root :=
   commit_refines_cas env Sys.init inv_init ops
 
 -- two handles race: both rebase to the empty store, both put, h0 commits 1 (acknowledged), h1's commit of 2
@@ -109,17 +200,6 @@ steps. -/
 theorem failed_commit_changes_nothing (env : Env) (s : Sys) (hi : Inv s) (op : Op) (hc : Op.isCommitStep op = true)
     (hr : ackOf s op (s.next env op).2 = none) : (s.next env op).1.disk.manifest = s.disk.manifest :=
   (next_facts env s hi op).manifest hr (by cases op <;> simp_all [Op.isCommitStep, Op.isAddTables])
-
-/-- only `cresume` answering `true` ever acknowledges -/
-theorem ack_only_by_update (s : Sys) (op : Op) (r : Resp) (l c : Addr) (h : ackOf s op r = some (l, c)) :
-    ∃ i p, op = .cresume i ∧ r = .commit (.ok true) ∧ (s.hs i).pc = some p ∧ p.last = l ∧ p.cur = c := by
-  unfold ackOf at h
-  split at h
-  · rename_i i
-    cases hp : (s.hs i).pc with
-    | none => simp [hp] at h
-    | some p => simp [hp] at h; exact ⟨i, p, rfl, rfl, hp, h.1, h.2⟩
-  · simp at h
 
 /-- the `(last, cur)` a parked commit will acknowledge are the arguments of the `Commit` call -/
 theorem parked_commit_keeps_args (env : Env) (s : Sys) (i : Nat) (cur last : Addr) (p : Pending)
@@ -198,7 +278,7 @@ theorem reopen_sees_ack (env : Env) (s : Sys) (hi : Inv s) (ops1 : List Op) (op 
   simp only [Sys.run]
   have hi1 := inv_run env s hi ops1
   have f := next_facts env _ hi1 op
-  obtain ⟨_, h2⟩ := f.ack l c hack
+  obtain ⟨h2, _⟩ := f.ack l c hack
   have key : ∀ (t : Sys) (ht : Inv t) (os : List Op), (t.run env os).disk.root ∈ t.disk.root :: (acks env t os).map Prod.snd := by
     intro t ht os
     induction os generalizing t with
@@ -213,7 +293,7 @@ theorem reopen_sees_ack (env : Env) (s : Sys) (hi : Inv s) (ops1 : List Op) (op 
         simpa [Option.toList] using ih'
       | some q =>
         obtain ⟨l', c'⟩ := q
-        rw [(g.ack l' c' h).2] at ih'
+        rw [(g.ack l' c' h).1] at ih'
         simp only [Option.toList, List.cons_append, List.nil_append, List.map_cons]
         exact List.mem_cons_of_mem _ ih'
   have := key _ f.inv ops2
